@@ -69,6 +69,11 @@ def mant(d, r, pat):
         i, j, l = np.meshgrid(np.arange(rk[k]), np.arange(n), np.arange(rk[k + 1]), indexing='ij')
         if pat == 'pos':
             G = 1 + ((i + 2 * j + l + k) % 3)
+        elif pat == 'deadch':
+            # one bond channel that carries nothing on its left side (exact zeros) followed by live channels: exact zero pivots
+            G = 1 + ((i + 2 * j + l + k) % 3)
+            if k in (0, d // 2) and rk[k + 1] > 1:
+                G = np.where(l == 0, 0, G)
         elif pat == 'diag':
             G = (i == l) * (1 + j) + ((i + l + k) % 2)
         else:          # signed (small d only)
@@ -334,7 +339,7 @@ def strata(tier, seed):
         for r in ((1, 2, 3, 4) if d <= 10 else (1, 2, 3) if d <= 100 else (1, 2)):       # r = 4 = n^2: square / tall unfoldings in right-to-left sweeps
             for E in Es:
                 for dist in ('even', 'first', 'last', 'alt', 'vee'):
-                    for pat in (('pos', 'signed') if d <= 10 else ('pos',)):
+                    for pat in (('pos', 'signed', 'deadch') if d <= 10 else ('pos', 'deadch') if (d <= 100 and r > 1 and dist == 'even') else ('pos',)):
                         if exps(d, E, dist) is None:
                             continue
                         cs.append(dict(d=d, r=r, E=E, dist=dist, pat=pat))
